@@ -18,7 +18,7 @@ def main():
             cw = tempfile.mkdtemp(prefix='govc-selftest-clean-'); os.rmdir(cw)
             sh(f'git -C /repo worktree add --detach {cw} HEAD')
             try:
-                r = sh(f'{V}/bin/govc check {p} --repo {cw} --verif {cw}/.verif-out', cwd=V)
+                r = sh(f'{V}/bin/govc check {p} --timeout 60 --repo {cw} --verif {cw}/.verif-out', cwd=V)
                 clean[p] = (r.returncode == 0)
             finally:
                 sh(f'git -C /repo worktree remove --force {cw}'); shutil.rmtree(cw, ignore_errors=True)
@@ -44,7 +44,7 @@ def main():
             if not all(clean_ok(p) for p in props):
                 res.append((name, 'NO-CHECK', 'the check for ' + ','.join(props) + ' does not pass on the unchanged tree (not built / not clean)')); continue
             for p in props:
-                r = sh(f'{V}/bin/govc check {p} --repo {wt} --verif {wt}/.verif-out', cwd=V)
+                r = sh(f'{V}/bin/govc check {p} --timeout 60 --repo {wt} --verif {wt}/.verif-out', cwd=V)
                 out_all += r.stdout
                 viol = [l for l in r.stdout.splitlines() if l.startswith('VIOLATION')]
                 exp = meta.get('expect_obligation')
